@@ -573,6 +573,68 @@ def h_pivots_utpm(ctx, n, P):
         ctx.eq(W[1, p], np.zeros((n, n)), 'permutation is constant')
 
 
+def h_container_order(ctx, fn, D, P):
+    """containers whose FIRST entry is not representative: a plain number in front of a polynomial,
+    a real polynomial in front of a complex one -- the result does not depend on the order of
+    the entries (type, degree and directions are those of the polynomial entries together)"""
+    algopy = symx.load_algopy()
+    from algopy import utils, UTPM
+    conv = UTPM.as_utpm if fn == 'as_utpm' else utils.ndarray2utpm
+    u = _vars(ctx, 'u', (D, P))
+    c = ctx.var('c')
+    for label, cont, pos_u, pos_c in (('[number, polynomial]', [c, mk_utpm(ctx, algopy, u)], 1, 0), ('[polynomial, number]', [mk_utpm(ctx, algopy, u), c], 0, 1)):
+        try:
+            Z = plain(conv(cont).data)
+        except Exception as e:
+            ctx.fact(False, '%s(%s) raised %s: %s' % (fn, label, type(e).__name__, str(e)[:80]))
+            continue
+        ctx.fact(Z.shape == (D, P, 2), '%s(%s) shape %s' % (fn, label, Z.shape))
+        if Z.shape != (D, P, 2):
+            continue
+        ctx.eq(Z[:, :, pos_u], u, '%s(%s): polynomial entry' % (fn, label))
+        for p in range(P):
+            ctx.eq(Z[0, p, pos_c], c, '%s(%s): number entry, direction %d' % (fn, label, p))
+            for d in range(1, D):
+                ctx.eq(Z[d, p, pos_c], 0 * c, '%s(%s): number entry, coefficient %d' % (fn, label, d))
+    r0 = _vars(ctx, 'r0', (D, P))
+    z1 = _cvars(ctx, 'z1', (D, P))
+    cz = mk_utpm(ctx, algopy, z1) if ctx.mode == 'sym' else algopy.UTPM(np.array(z1.tolist(), dtype=complex).reshape(z1.shape))
+    for label, cont, pr, pz in (('[real, complex]', [mk_utpm(ctx, algopy, r0), cz], 0, 1), ('[complex, real]', [cz, mk_utpm(ctx, algopy, r0)], 1, 0)):
+        try:
+            Z = plain(conv(cont).data)
+        except Exception as e:
+            ctx.fact(False, '%s(%s) raised %s: %s' % (fn, label, type(e).__name__, str(e)[:80]))
+            continue
+        ctx.eq(Z[:, :, pr], r0, '%s(%s): real entry' % (fn, label))
+        ctx.eq(Z[:, :, pz], z1, '%s(%s): complex entry keeps its imaginary part' % (fn, label))
+
+
+def h_symvec_plain(ctx):
+    """symvec / vecsym on plain arrays: an integer-typed unsymmetric matrix is symmetrised with its
+    exact means (the docstring's own example), vecsym rejects a vector whose length is no
+    triangular number (nothing is dropped silently).  Concrete numbers: decided on the float build."""
+    algopy = symx.load_algopy()
+    from algopy import utils
+    if ctx.mode == 'sym':
+        ctx.fact(True, 'concrete integer-typed arrays: decided on the float build')
+        ctx.eq(S.const(0), S.const(0), 'symvec')
+        return
+    A = np.array([[1, 2], [3, 4]])
+    for label, f in (('utils.symvec', utils.symvec), ('algopy.symvec', algopy.symvec)):
+        ctx.eq(np.asarray(f(A), dtype=float), np.array([1.0, 2.5, 4.0]), '%s(integer-typed [[1,2],[3,4]]) == [1, 2.5, 4]' % label)
+        ctx.eq(np.asarray(f(A, 'L'), dtype=float), np.array([1.0, 3.0, 4.0]), '%s(.., "L")' % label)
+        ctx.eq(np.asarray(f(A, 'U'), dtype=float), np.array([1.0, 2.0, 4.0]), '%s(.., "U")' % label)
+    B = np.array([[2, 1, 4], [3, 6, 5], [1, 2, 7]])
+    ctx.eq(np.asarray(utils.vecsym(utils.symvec(B)), dtype=float), (B + B.T) / 2.0, 'vecsym(symvec(B)) == (B + B.T)/2 for an integer-typed B')
+    for n in (2, 4, 5):
+        try:
+            r = utils.vecsym(np.arange(1.0, n + 1.0))
+            ctx.fact(False, 'vecsym of a vector of length %d is accepted (result shape %s): entries are dropped' % (n, np.shape(r)))
+        except ValueError:
+            ctx.fact(True, 'rejected')
+    ctx.eq(np.asarray(utils.vecsym(np.array([1.0, 2.0, 3.0]))), np.array([[1.0, 2.0], [2.0, 3.0]]), 'vecsym([1,2,3])')
+
+
 def h_as_utpm_views(ctx, D, P):
     """containers that are transposed / Fortran-ordered object arrays"""
     algopy = symx.load_algopy()
@@ -641,6 +703,9 @@ def units(tier, seed):
     for what in ('vecsym', 'base_and_dirs', 'as_utpm', 'as_utpm, real entries first', 'FtoJT, JTtoF', 'combine_blocks', 'combine_blocks, wide and tall grids'):
         add('complex polynomials/%s/D2,P2' % what, 'h_complex', what=what, D=2, P=2)
     add('containers/combine_blocks with a P=1 block/D2,P3', 'h_combine_mixed', D=2, P=3)
+    add('symvec, vecsym on plain integer-typed arrays and vectors of the wrong length', 'h_symvec_plain')
+    for fn in ('as_utpm', 'ndarray2utpm'):
+        add('containers/%s does not depend on the order of its entries/D2,P2' % fn, 'h_container_order', fn=fn, D=2, P=2)
     add('dirs/integer-typed directions, non-integer base point/D3,P2', 'h_dirs_intV', D=3, P=2)
     for dt in ('int32', 'int16', 'uint8', 'int64'):
         add('seeds/base point of dtype %s' % dt, 'h_seed_inttypes', dt=dt)
